@@ -22,6 +22,12 @@ for p in pats:
             bad += 1
             print("FALSE-ALARM %-55s %s" % (rel, {k: v[:2] for k, v in det.items()}))
     else:
+        mp = os.path.join(os.path.dirname(p), "meta.json")
+        meta = json.load(open(mp)) if os.path.exists(mp) else {}
+        if meta.get("documented_miss"):
+            if pid in det:
+                print("NOTE  %-60s documented miss is now detected: %s" % (rel, sorted(det)))
+            continue
         if pid not in det:
             bad += 1
             print("MISSED %-60s detected only by %s" % (rel, sorted(det)))
